@@ -38,7 +38,8 @@ RULE = (
     "enumerated) and with every explicit argument choice the HPO path can pass on; exhaustive for that sub-space "
     "(coverage key exhaustive_subspaces lists states/edges). walk: seeded chain of clone-and-mutate steps with "
     "default bounds, names drawn with sample_mutation_method or uniformly, 40% of the calls with explicit "
-    "arguments. A case is non-trivial when at least one edge really changed the architecture AND at least one "
+    "arguments; every walk starts with a star (each advertised method once from the initial configuration, "
+    "without and with explicit arguments). A case is non-trivial when at least one edge really changed the architecture AND at least one "
     "edge was stopped by a bound (or fell back), and all five monitors judged them; distinct = distinct case "
     "descriptions"
 )
@@ -94,7 +95,7 @@ def cases(tier, seed):
             out.append({"mode": "walk", "subject": sub, "steps": (steps_mod // 2 if heavy and tier != "quick" else steps_mod),
                         "seed": int(rng.integers(1 << 30))})
         for sub in network_subjects():
-            heavy = sub.get("obs") in ("image", "dict", "tuple", "resnet")
+            heavy = sub.get("obs") in ("image", "dict", "tuple", "resnet", "image_cfg")
             out.append({"mode": "walk", "subject": sub, "steps": (steps_net // 2 if heavy else steps_net),
                         "seed": int(rng.integers(1 << 30))})
     return out
@@ -162,6 +163,8 @@ def monitor_effect(sink: Sink, e) -> str:
     cur, hops = cmeth, 0
     while cur != ameth and hops < 4:
         st = aw.expected_effect(fam, pre_c, cur, ret, args)["status"]
+        if cur != cmeth and cur not in e.pre_fams[apath][3]:
+            st = "stopped"  # an intermediate fall-back that is disabled on this component (encoder layer methods)
         nxt = aw.FALLBACKS.get((fam, cur))
         if nxt is None:
             sink.violate("effect", "reported_method_is_no_documented_fallback", csite, **e.describe())
@@ -397,6 +400,7 @@ def run_case(case):
     else:
         stats = aw.random_walk(subject, case["steps"], case["seed"], on_edge, on_edge_b=on_edge_b, on_state=on_state)
         rec.hit("walk_steps", stats["steps"])
+        rec.hit("star_edges_from_initial_configuration", stats["star_edges"])
         rec.hit("walk_explicit_argument_calls", stats["explicit"])
         rec.hit("walk_distinct_architectures", stats["distinct_states"])
         rec.extra["walk"] = {"methods": stats["methods"], "aborted": stats["aborted"]}
